@@ -15,6 +15,7 @@ import (
 	"sort"
 	"strings"
 	"testing"
+	"time"
 
 	shared "github.com/aquilax/hranoprovod-cli/v3"
 	"github.com/aquilax/hranoprovod-cli/v3/resolver"
@@ -854,6 +855,19 @@ func genC11(t *rapid.T) c11Case {
 		}
 		recs = nr
 	}
+	if rapid.IntRange(0, 3).Draw(t, "cancelpairs") == 0 {
+		// references listed twice with quantities that cancel exactly ("stock: 1" ... "stock: -1"): still references
+		for ri := range recs {
+			var out []vLine
+			for _, ln := range recs[ri].Lines {
+				out = append(out, ln)
+				if ln.Kind == vkEntry && !strings.HasPrefix(ln.Num, "-") && rapid.Bool().Draw(t, "cancelhere") {
+					out = append(out, c11Entry(ln.Name, "-"+ln.Num))
+				}
+			}
+			recs[ri].Lines = out
+		}
+	}
 	c.Book = vDoc{Recs: recs}
 	if rapid.IntRange(0, 2).Draw(t, "decorated") == 0 {
 		// blank lines, column-0 comments of any content and notes between the lines: they are no part of any recipe
@@ -904,6 +918,7 @@ func c11EnumSpace(maxN int) []c11EnumSpec {
 func init() {
 	vRegister("C11", "c11.random", checkC11)
 	vRegister("C11", "c11.bigbook", checkC11Big)
+	vRegister("C11", "c11.longchain", checkC11Long)
 	vRegister("C11", "c11.enum", checkC11)
 }
 
@@ -948,6 +963,53 @@ func checkC11Big(c c11BigCase, ctx *vCtx) *vFailure {
 		return vFailf("%v on a recipe book whose last two recipes (behind %d MiB of comment lines) form a cycle: failed=%v, error %q (expected the maximum-depth error)", cmd, c.MiB, r.Failed, vTrunc(r.Err, 300))
 	}
 	return nil
+}
+
+// a very long acyclic chain through the real binary (whatever main() sets up applies): the maximum-depth error for a
+// limit below its length, success for a limit above it
+
+type c11LongCase struct {
+	Links int `json:"links"`
+	N     int `json:"n"`
+	Cmd   int `json:"cmd"`
+}
+
+func checkC11Long(c c11LongCase, ctx *vCtx) *vFailure {
+	var sb strings.Builder
+	for i := 0; i < c.Links; i++ {
+		fmt.Fprintf(&sb, "link%d:\n  link%d: 1\n", i, i+1)
+	}
+	fmt.Fprintf(&sb, "link%d:\n  x: 1\n", c.Links)
+	bp := vWriteFile("c11-long-book.yaml", sb.String())
+	lp := vWriteFile("c11-long-log.yaml", "2021/01/01:\n  link0: 1\n")
+	cmd := c11BigCmds[c.Cmd%len(c11BigCmds)]
+	r := vRunBin(vInvocation{Args: append([]string{"--today", vToday, "--maxdepth", fmt.Sprint(c.N), "-d", bp, "-l", lp}, cmd...)}, 10*time.Minute)
+	ctx.Run(1)
+	ctx.NonTrivial(true)
+	ctx.Labelf("links=%d", c.Links)
+	if r.Exit == -999 {
+		vHang("the real binary did not terminate within ten minutes on a chain of %d recipes", c.Links)
+	}
+	if c.N <= c.Links {
+		if !r.Failed || !vIsDepthError(r.Err) {
+			return vFailf("%v --maxdepth %d on an acyclic chain of %d references (real binary): exit %d, message %q (expected the maximum-depth error)", cmd, c.N, c.Links, r.Exit, vTrunc(r.Err, 400))
+		}
+		return nil
+	}
+	if r.Failed {
+		return vFailf("%v --maxdepth %d on an acyclic chain of %d references (real binary) fails: exit %d, message %q", cmd, c.N, c.Links, r.Exit, vTrunc(r.Err, 400))
+	}
+	return nil
+}
+
+func TestVerifC11Long(t *testing.T) {
+	space := []c11LongCase{{400000, 10, 0}, {400000, 400002, 0}}
+	if vThorough() {
+		space = append(space, c11LongCase{1500000, 10, 1}, c11LongCase{1500000, 1500001, 0}, c11LongCase{400000, 400002, 2})
+	}
+	vEnum(t, "C11", "c11.longchain",
+		"an acyclic chain of 400 000 (thorough: 1 500 000) references through the real binary, with --maxdepth 10 (maximum-depth error) and with a limit above the length of the chain (success)",
+		fmt.Sprintf("%d cases", len(space)), len(space), func(i int) c11LongCase { return space[i] }, checkC11Long)
 }
 
 func TestVerifC11Big(t *testing.T) {
